@@ -110,6 +110,10 @@ func (e *condEngine) inlineCall(cl *ssa.Call, depth int) ([]boolAlt, bool) {
 		return nil, false
 	}
 	var out []boolAlt
+	resolved := map[*ssa.Return][]ssa.Value{}
+	for _, rr := range returnsOf(g) {
+		resolved[rr.Return] = rr.Results // (named results with a deferred call are spilled to cells: look through)
+	}
 	for _, blk := range g.Blocks {
 		if len(blk.Instrs) == 0 {
 			continue
@@ -118,8 +122,12 @@ func (e *condEngine) inlineCall(cl *ssa.Call, depth int) ([]boolAlt, bool) {
 		if !ok || blk == g.Recover {
 			continue
 		}
+		res0 := rt.Results[0]
+		if rv := resolved[rt]; len(rv) > 0 {
+			res0 = rv[0]
+		}
 		for _, pth := range e.pathsTo(g, blk, depth+1) {
-			for _, alt := range e.evalBool(rt.Results[0], blk, pth.from, depth+1) {
+			for _, alt := range e.evalBool(res0, blk, pth.from, depth+1) {
 				if m, ok := mergeAsg(pth.asg, alt.asg); ok {
 					out = append(out, boolAlt{m, alt.val})
 				}
